@@ -240,6 +240,34 @@ def opWr (rest : String) : Option String :=
       some s!"ret={ret} pre={b01 prefixOk} app={app} tb={tb} ref=1"
     | _, _ => none
 
+/-- C13: parse, then rebuild from the parts through the model's views and builder. -/
+def opRb (x : B) : Outcome String := do
+  let r ← parseP x
+  match r with
+  | .error _ => pure "nohdr"
+  | .ok h =>
+    let ab ← h.addressBytesP
+    let tb ← h.tlvBytesP
+    let show_ (o : Option B) : String := match o with
+      | some b => if b = h.header then "eq" else hexOf b
+      | none => "err"
+    let vc := byteAt h.header 12
+    let afp := byteAt h.header 13
+    let raw := (Builder.new vc afp).run [.writePayload (.slice ab), .writePayload (.slice tb)]
+    let sec := (Builder.new vc afp).run [.writePayload (.slice ab), .writePayload (.tlvSection tb)]
+    let items := tlvCollect tb
+    let allOk := items.all (fun i => match i with | .ok _ => true | .error _ => false)
+    let it := if allOk then
+        show_ ((Builder.new vc afp).run [.writePayload (.slice ab),
+          .writePayloads (items.filterMap (fun i => match i with
+            | .ok t => some (.tlv t.kind t.value) | .error _ => none))])
+      else "na"
+    let addr := if h.addressFamily ≠ .unspec then
+        show_ ((Builder.withAddresses (vcByte h.version h.command) h.protocol h.addresses).run
+          [.writePayload (.tlvSection tb)])
+      else "na"
+    pure s!"hdr={hexOf h.header} raw={show_ raw} sec={show_ sec} items={it} addr={addr}"
+
 -- ---------------------------------------------------------------- tables
 
 def opTbl : String :=
